@@ -19,6 +19,9 @@ Cases (`<label>` names the concrete Rust type on the harness side and is ignored
   `row OP ; OP ; …` with OP ::= `add <label> <variant> | T | V` | `fill n` (n nulls)
        → one `ok:<count>:<len>` / `err(<class> <path>):<count>:<len>` / `toomany:<count>:<len>` per op, then
          `= cells=<parsed cell count> <buffer hex or digest>`
+  `bind <path> n…` rows of ~65535 values through from_serializable (slice_i32 / slice_opt / vec_str / map), a
+       RowWriter used directly (writer), append_serialize_row (append a b c / mixed n k), add_value (add n)
+       → `ok count=<count> cells=<parsed> <digest>` | `err TooManyValues`
   `big …` (values of 2^31 bytes; not representable here)  → echo of the implementation's line.
 -/
 namespace ScyllaVerif.Drive.C17
@@ -303,6 +306,56 @@ def runOps : List String → SV → List String → Option (SV × List String)
     | none => none
     | some (sv', s) => runOps ops sv' (s :: acc)
 
+/-! ### `bind`: the 16-bit boundary on every bind path (`from_serializable`, `RowWriter`, `append_serialize_row`) -/
+
+def intCell (i : Nat) : Bytes := [0, 0, 0, 4] ++ beBytes 4 i
+
+/-- The `i`-th cell of a generated row of the given kind (the harness builds the same values). -/
+def cellOf (kind : String) (i : Nat) : Bytes :=
+  match kind with
+  | "slice_i32" => intCell i
+  | "slice_opt" => if i % 2 = 0 then nullCell else intCell i
+  | "vec_str" => [0, 0, 0, 1, UInt8.ofNat (97 + i % 26)]
+  | "map" => intCell 7
+  | _ => -- "writer"
+    if i % 3 = 0 then nullCell else if i % 3 = 1 then [0xff, 0xff, 0xff, 0xfe] else [0, 0, 0, 1, UInt8.ofNat (i % 256)]
+
+def cellsOf (kind : String) (n : Nat) : List Bytes := (List.range n).map (cellOf kind)
+
+def showBind : Option SV → String
+  | none => "err TooManyValues"
+  | some sv => s!"ok count={sv.count} {cellsStr sv.bytes} {digest sv.bytes}"
+
+def runBind (toks : List String) : String :=
+  match toks with
+  | ["add", n] =>
+    match n.toNat? with
+    | some n => showBind (some (fillNulls n SV.empty))
+    | none => "bad-case"
+  | "append" :: ns =>
+    match ns.mapM String.toNat? with
+    | some ns =>
+      -- every part is built with add_value (at most 65535 values each), then appended to one writer
+      let w := ns.foldl (fun w n =>
+        let part := (RW.new.writeCells (cellsOf "slice_i32" (min n 65535)))
+        w.appendRow ⟨part.buf, part.count⟩) RW.new
+      showBind w.finish
+    | none => "bad-case"
+  | ["mixed", n, k] =>
+    match n.toNat?, k.toNat? with
+    | some n, some k =>
+      let part := RW.new.writeCells (cellsOf "slice_i32" (min k 65535))
+      let w := ((RW.new.writeCells (cellsOf "writer" n)).appendRow ⟨part.buf, part.count⟩).writeCells [nullCell]
+      showBind w.finish
+    | _, _ => "bad-case"
+  | [kind, n] =>
+    if ["slice_i32", "slice_opt", "vec_str", "map", "writer"].contains kind then
+      match n.toNat? with
+      | some n => showBind (RW.new.writeCells (cellsOf kind n)).finish
+      | none => "bad-case"
+    else "bad-case"
+  | _ => "bad-case"
+
 def run (case impl : String) : String :=
   match (words case).head? with
   | some "ser" =>
@@ -353,6 +406,7 @@ def run (case impl : String) : String :=
     match runOps ops SV.empty [] with
     | none => "bad-case"
     | some (sv, outs) => " ".intercalate outs ++ " = " ++ cellsStr sv.bytes ++ " " ++ digest sv.bytes
+  | some "bind" => runBind (words case).tail
   | some "big" => impl
   | _ => "bad-case"
 
